@@ -407,7 +407,7 @@ func genDNSRule(r *c.Rng) string {
 }
 
 var cidrs = []string{"10.0.0.0/8", "192.168.0.0/16", "192.168.1.0/24", "127.0.0.1", "::1", "fd00::/8", "2001:db8::/32", "0.0.0.0/0", "::/0", "10.1.2.3/32", "::ffff:10.0.0.0/104", "300.1.1.1", "10.0.0.0/33", ""}
-var ipsPool = []string{"10.0.0.1", "10.1.2.3", "192.168.1.7", "192.168.2.7", "127.0.0.1", "::1", "fd00::1", "2001:db8::5", "8.8.8.8", "::ffff:10.0.0.1", "fe80::1", "0.0.0.0", "255.255.255.255"}
+var ipsPool = []string{"10.0.0.1", "10.1.2.3", "10.0.1.1", "10.200.0.9", "192.168.0.1", "fd00::2", "fd00:1::1", "2001:db8:1::1", "192.168.1.7", "192.168.2.7", "127.0.0.1", "::1", "fd00::1", "2001:db8::5", "8.8.8.8", "::ffff:10.0.0.1", "fe80::1", "0.0.0.0", "255.255.255.255"}
 var locals = []string{"a", "root", "first.last", "\"quo ted\"", "x+y", "A", ".dot", "dot.", "a..b", "", "\"\"", "a\\@b", "\"a@b\""}
 var prins = []string{"root", "alice", "Alice", "*", "", "bob-1", "h.slatman", "ops", "a b"}
 var schemes = []string{"https", "http", "spiffe", "urn", ""}
@@ -496,6 +496,14 @@ func genRules(r *c.Rng, near *[]string) Rules {
 		x := c.Pick(r, cidrs)
 		if !dirty {
 			x = c.Pick(r, cidrs[:11])
+		}
+		if r.Chance(1, 2) {
+			// nested ranges on a shared base address, host bits set or not, single addresses
+			if r.Chance(2, 3) {
+				x = fmt.Sprintf("%s/%d", c.Pick(r, []string{"10.0.0.0", "10.1.2.3", "10.0.0.1", "192.168.0.0", "192.168.1.0"}), c.Pick(r, []int{8, 12, 16, 24, 30, 32}))
+			} else {
+				x = fmt.Sprintf("%s/%d", c.Pick(r, []string{"fd00::", "fd00::1", "2001:db8::", "2001:db8::5"}), c.Pick(r, []int{8, 16, 32, 64, 128}))
+			}
 		}
 		ru.IP = append(ru.IP, x)
 	}
